@@ -175,6 +175,17 @@ def _apply_env(self, lab):
         if told:
             self.apply_env(("XT", told[lab[1] % len(told)]["pid"]))
         return
+    if lab[0] == "LTk":
+        # the SIGTERM reached a worker that had not yet installed its own handlers (between fork and Worker.init_signals the
+        # child still runs the arbiter's handler, which only queues the signal): the worker does not know it was told to stop.
+        # Outside Model/Reload.v (whose kernel never loses a signal): these schedules are judged by the oracle only.
+        told = [k for k in self.kids if k["st"] == "R" and int(_signal.SIGTERM) in k["sigs"]]
+        if told:
+            k = told[lab[1] % len(told)]
+            k["sigs"] = [x for x in k["sigs"] if x != int(_signal.SIGTERM)]
+            self.resolved.append(("LT", k["pid"]))
+            self.nlabels += 1
+        return
     return _orig_apply(self, lab)
 
 
@@ -293,6 +304,13 @@ def fixed_cases():
     # the bind address changes / changes back
     cs.append({"cfg": {"workers": 2, "bind": 0}, "script": boot + [("B", BIND_CHOICES[1]), ("S", SIG["HUP"])] + [M] * 30 +
                [("B", BIND_CHOICES[0]), ("S", SIG["HUP"])] + [M] * 30, "kind": "rebind"})
+    # a SIGTERM swallowed by a worker in early boot: the once-per-loop re-send of manage_workers must retire it all the same
+    for nw in (1, 2):
+        for i in (10, 14, 18, 25):
+            cs.append({"cfg": {"workers": nw, "bind": 0}, "kind": "lost-term", "lost": True, "tail_loops": 10,
+                       "script": boot + [("S", SIG["HUP"])] + [M] * i + [("LTk", 0)] + [M] * 8 + [("LTk", 1)] + [M] * 30})
+    cs.append({"cfg": {"workers": 2, "bind": 0}, "kind": "lost-term", "lost": True, "tail_loops": 10,
+               "script": boot + [("S", SIG["HUP"])] + [M] * 6 + [("S", SIG["HUP"])] + [M] * 30 + [("LTk", 0), ("LTk", 0)] + [M] * 30})
     # a NEW worker dies inside the reload window (not in the property's quantifier: side finding)
     for i in range(4, 12):
         cs.append({"cfg": {"workers": 2, "bind": 0}, "kind": "window-death", "crashes": True,
@@ -331,7 +349,7 @@ def gen_random(rng):
 
 def describe(case):
     return {"cfg": case["cfg"], "schedule": [list(x) for x in case["script"]],
-            "tail_loops": case.get("tail_loops", 6), "crashes": case.get("crashes", False)}
+            "tail_loops": case.get("tail_loops", 6), "crashes": case.get("crashes", False), "lost": case.get("lost", False)}
 
 
 def run_sim(ctx):
@@ -346,7 +364,7 @@ def run_sim(ctx):
         ctx.count_case((tuple(sorted(case["cfg"].items())), tuple(map(repr, case["script"]))), nontrivial=hups >= 1 and w.start is not None)
         ctx.hist("kind", case["kind"])
         ctx.hist("reloads", sum(1 for e in w.events if e[0] == "load_config") - 1)
-        if w.start is not None:
+        if w.start is not None and not case.get("lost"):
             flat = []
             for o in w.tr:
                 flat += o
@@ -381,7 +399,7 @@ def run(ctx):
     ctx.cov["rule"] = ("reload schedules for the real Arbiter.run() on the simulated kernel (timeout = 0): after the boot, <= 6 events {HUP (optionally "
                        "after editing workers / the bind address), exit of a told worker, SIGCHLD, death of any worker} between master steps, then a "
                        "fair tail; fixed corpus: every resize, HUP bursts beyond the queue bound, a told worker's exit at every point of a reload, "
-                       "re-binding, a new worker dying inside the reload window; non-trivial = at least one HUP; distinct by (configuration, schedule)")
+                       "re-binding, a new worker dying inside the reload window, a SIGTERM swallowed by a worker in early boot (oracle only); non-trivial = at least one HUP; distinct by (configuration, schedule)")
 
 
 def replay(rep):
